@@ -16,6 +16,7 @@ import MythVerif.Proofs.WsQueueTsoStepF6
 import MythVerif.Proofs.WsQueueTsoStepF7
 import MythVerif.Proofs.WsQueueTsoStepP1
 import MythVerif.Proofs.WsQueueTsoStepP2
+import MythVerif.Proofs.WsQueueTsoStepK1
 /-! The TSO invariant is inductive; it holds in every reachable state of the store-buffer machine
     with the fences of the source. -/
 namespace MythVerif.WsqTso
@@ -71,6 +72,11 @@ theorem stepT_inv (s s' : St) (p : Pid) : Inv s → stepT s p = some s' → Inv 
   | tp2 e b => exact t_tp2 s s' p e b h hpc hs
   | tp3 e => exact t_tp3 s s' p e h hpc hs
   | tp4 ok => exact t_tp4 s s' p ok h hpc hs
+  | kq0 => exact t_kq0 s s' p h hpc hs
+  | kq1 t => exact t_kq1 s s' p t h hpc hs
+  | pk1 => exact t_pk1 s s' p h hpc hs
+  | pk2 b => exact t_pk2 s s' p b h hpc hs
+  | pk3 b => exact t_pk3 s s' p b h hpc hs
 
 set_option maxHeartbeats 1000000 in
 theorem callO_inv (s s' : St) (pc : OPc) (hpc : (∃ e, pc = .pu0 e) ∨ pc = .pq ∨ (∃ e, pc = .ptl e)) :
@@ -86,7 +92,7 @@ theorem callO_inv (s s' : St) (pc : OPc) (hpc : (∃ e, pc = .pu0 e) ∨ pc = .p
   · simp at hs
 
 set_option maxHeartbeats 1000000 in
-theorem callT_inv (s s' : St) (p : Pid) (pc : TPc) (hpc : pc = .tq0 ∨ ∃ e, pc = .tpl e) :
+theorem callT_inv (s s' : St) (p : Pid) (pc : TPc) (hpc : pc = .tq0 ∨ pc = .kq0 ∨ ∃ e, pc = .tpl e) :
     Inv s → (match s.tpc p with | .idle => some { s with tpc := upd s.tpc p pc } | _ => none) = some s' → Inv s' := by
   intro h hs
   split at hs
@@ -94,7 +100,7 @@ theorem callT_inv (s s' : St) (p : Pid) (pc : TPc) (hpc : pc = .tq0 ∨ ∃ e, p
     simp at hs; subst hs
     cases h
     simp only [ownerLocked, carry, resetting, ownerFlight] at *
-    rcases hpc with rfl | ⟨e, rfl⟩
+    rcases hpc with rfl | rfl | ⟨e, rfl⟩
     all_goals tso_finish
   · simp at hs
 
@@ -138,7 +144,8 @@ theorem step_inv (s : St) (l : Lbl) (s' : St) : Inv s → step s l = some s' →
   | o => exact stepO_inv s s' h hs
   | flushO => exact flushO_inv s s' h hs
   | tTake p => exact callT_inv s s' p _ (Or.inl rfl) h hs
-  | tPass p e => exact callT_inv s s' p _ (Or.inr ⟨e, rfl⟩) h hs
+  | tPass p e => exact callT_inv s s' p _ (Or.inr (Or.inr ⟨e, rfl⟩)) h hs
+  | tPeek p => exact callT_inv s s' p _ (Or.inr (Or.inl rfl)) h hs
   | t p => exact stepT_inv s s' p h hs
   | flushT p => exact f_T s s' p h hs
 
